@@ -91,7 +91,13 @@ func (lex *Lexer) isNotCommentEnd() bool {
 		lex.p++
 		return true
 	}
-	return lex.data[lex.p] != '?' || lex.data[lex.p+1] != '>'
+	if lex.data[lex.p] == '?' && lex.data[lex.p+1] == '>' {
+		return false
+	}
+	if lex.data[lex.p] == '\n' && lex.data[lex.p-1] == '\r' {
+		return true
+	}
+	return lex.data[lex.p-1] != '\n' && lex.data[lex.p-1] != '\r'
 }
 
 func (lex *Lexer) Lex() *token.Token {
